@@ -289,7 +289,7 @@ def run(tier, seed, jobs) -> Result:
     if tier != "quick":
         seqs += [s for s in itertools.product(names, repeat=3) if len(set(s)) == 3][::7]
     full = tier != "quick"
-    units = [[(s, full)] for s in seqs]
+    units = [[(s, full and len(s) <= 2)] for s in seqs]  # (three-item sequences: second cut next to CR/LF/braces only)
     n = 0
     outcomes = set()
     for f, k, oc in pmap(work, seeded_order(units, seed), jobs, chunksize=2):
@@ -302,7 +302,7 @@ def run(tier, seed, jobs) -> Result:
     res.coverage = {
         "evaluations": n, "distinct_nontrivial": len(seqs) + len(outcomes),
         "rule": "every sequence of <=%d items from the %d-item menu x every segmentation of one stretch with <=2 cut points (%s); distinct = item sequences + distinct "
-                "(sequence, '+' count, BAD count, closed) outcomes" % (2 if tier == "quick" else 3, len(ITEMS), "all positions" if full else "second cut next to CR/LF/braces"),
+                "(sequence, '+' count, BAD count, closed) outcomes" % (2 if tier == "quick" else 3, len(ITEMS), "all positions for sequences of <=2 items, else second cut next to CR/LF/braces" if full else "second cut next to CR/LF/braces"),
         "sequences": len(seqs), "distinct_outcomes": len(outcomes), "exhaustive": True,
         "samples": [list(seqs[3]), list(seqs[40]), list(seqs[-1])],
     }
